@@ -99,6 +99,11 @@ CHECKS = {
     note="Trusts TLC/SANY, Go toolchain. The lexeme forms are a hand-written concretisation table (the model is token-level); blank input returning (nil, nil) is accepted as pinned by the suite.",
     technique="TLA+ spec (ExprParser pushdown automaton with flattening) enumerated by TLC; every token string replayed on expr.Parse",
     design="4/C17", engine="exprparse"),
+ "C15": dict(
+    text="Config.tla states attribute resolution (Resolve: configured, else declared default, else error; ${key} -> top-level property, error if absent; ill-typed text is an error for convertible types) and element resolution (ResolveElem) and TLC enumerates declarations x treatments x spellings x forms (5888 cases). Each case is mapped onto a concrete attribute of a registered plugin type - rotating through every attribute of every type read from the live plugin registry by reflection, so new types are covered automatically - and executed with NewPlugin: the field must hold the configured literal, the declared default or the property value, or creation must fail. Element shapes (default, optional, single, indexed, unknown type, missing/ill-typed inner attribute) on a probe plugin; 20 whole configurations (4 key spellings x flat / inline 'name!' forms) that instantiate every registered logger and appender type through Refresh with the instantiated fields inspected; 25 error classes incl. start failures and absurd buffer sizes must return an error; 1500 (quick) / 20000 (thorough) random mutation triples must neither panic nor hang.",
+    note="Trusts TLC/SANY, Go toolchain, VerifPlugins hook. Literals per Go field type are chosen by the harness; plugin types registered by the harness itself (Rec, Probe, SlowSink, GateLayout) are part of the sweep.",
+    technique="TLA+ spec (Config resolution tables) enumerated by TLC; cases mapped by reflection onto every registered plugin attribute and replayed through NewPlugin / Refresh",
+    design="4/C15", engine="config"),
 }
 
 NOT_YET = {}
